@@ -20,6 +20,7 @@ import (
 	"strconv"
 	"strings"
 	"testing"
+	"time"
 
 	"pgregory.net/rapid"
 )
@@ -90,6 +91,7 @@ type recorder struct {
 	fps      map[string]struct{}
 	ntSeen   int
 	frozen   bool // after the first violation nothing more is counted (rapid is shrinking)
+	slowest  time.Duration
 	prewrite string
 }
 
@@ -274,7 +276,20 @@ func Run(t *testing.T, s Spec) {
 		if r.prewrite != "" {
 			writeCase(r.prewrite, s, c, "in flight when the process died")
 		}
+		t0 := time.Now()
 		o := SafeCheck(s.Check, c)
+		if d := time.Since(t0); d > r.slowest && !r.frozen {
+			r.slowest = d
+			if r.st.Info == nil {
+				r.st.Info = map[string]interface{}{}
+			}
+			r.st.Info["slowest_case_s"] = d.Seconds()
+			sm := o.Sample
+			if sm == nil {
+				sm = c
+			}
+			r.st.Info["slowest_case"] = sm
+		}
 		r.record(c, o)
 		if o.Violation != "" {
 			r.frozen = true
